@@ -22,7 +22,9 @@ logging.disable(logging.CRITICAL)
 
 PREFIXES = ("open", "os.", "shutil.", "pickle.", "subprocess.", "socket.", "glob.", "tempfile.", "pathlib.", "mmap.",
             "ctypes.dlopen", "urllib.", "webbrowser.", "fcntl.", "ftplib.", "http.", "smtplib.")
-IGNORE = ("os.putenv", "os.unsetenv", "os.fwalk", "os.scandir", "os.listdir", "os.walk")   # the worker's own snapshotting
+IGNORE = ("os.putenv", "os.unsetenv")
+# (os.listdir / os.scandir / os.walk ARE recorded: a directory listing steered by the document is file-system access;
+#  the worker's own snapshotting runs while recording is off.  There is no audit event for the os.stat family.)
 
 _rec = {"on": False, "events": [], "root": None}
 MUTATING = ("os.mkdir", "os.remove", "os.rename", "os.rmdir", "os.link", "os.symlink", "os.truncate", "os.chmod", "os.chown",
@@ -84,6 +86,17 @@ def _hook(event, args):
         _rec["on"] = True
     else:
         e["args"] = [a if isinstance(a, (str, int, type(None))) else repr(a)[:200] for a in args[:3]]
+        if event in ("os.listdir", "os.scandir", "os.walk", "os.fwalk", "glob.glob", "glob.glob/2") and args:
+            p0 = args[0]
+            if isinstance(p0, bytes):
+                p0 = p0.decode("utf-8", "surrogateescape")
+            e["path"] = p0 if isinstance(p0, str) else "."
+            _rec["on"] = False
+            try:
+                e["real"] = os.path.realpath(e["path"])
+            except (ValueError, OSError):
+                e["real"] = None
+            _rec["on"] = True
         if event.startswith(MUTATING):
             _rec["on"] = False
             ok = all(_inside_root(a) for a in args[:2] if isinstance(a, str))
@@ -203,6 +216,8 @@ def main():
     # warm-up: make the interpreter import everything extraction needs before recording starts
     try:
         from pdfminer import _saslprep, ccitt, jbig2, lzw, ascii85, runlength  # noqa: F401
+        import cryptography.hazmat.backends  # noqa: F401
+        import cryptography.hazmat.primitives.ciphers  # noqa: F401
         import PIL.Image  # noqa: F401
     except Exception:
         pass
